@@ -66,6 +66,14 @@ def jobs(tier):
                  assumes=["inductive hypothesis: counts within limits before the step"],
                  bounds="one Hello completing one incomplete connection; completed count, per-user count and both limits symbolic up to 1000; any single failing step",
                  shape="connection completion step"))
+    # building a message: appending a basic value / a file descriptor with any of its fallible steps failing (descriptors as identities; found F24)
+    for ty, nm in ((104, "unix_fd"), (117, "uint32")):
+        J.append(Job(name=f"append.{nm}", group="C14.append", harness="harness/C14_append_fd.c", defines={"TYPE": ty}, real=["dbus/dbus-signature.c"], env=["assert_stubs.c"], checks="assert", unwind=14, timeout=300,
+                     encodes=["dbus_message_iter_append_basic", "_dbus_message_iter_open_signature", "_dbus_message_iter_close_signature", "expand_fd_array", "close_unix_fds", "_dbus_message_iter_append_check"],
+                     stubs=["DBusString = length-only ghost", "_dbus_type_writer_write_basic = appends 4 aligned bytes and one type code, or fails leaving both alone (contract of C02.c / C12)",
+                            "_dbus_header_set_field_basic / _dbus_header_get_field_raw = ghost SIGNATURE and UNIX_FDS fields, may fail", "_dbus_dup / _dbus_close = ghost descriptor table with identities", "dbus_realloc = fresh block, may fail"],
+                     bounds="message already holding 0..3 descriptors (array absent or of 4), body 0..200 bytes, signature absent or 1..40 codes; every combination of the 7 fallible steps failing",
+                     shape=f"append one {nm} to a message under faults"))
     # Hello as a whole under OOM: the C03 Hello skeleton with the atomicity obligation switched on (known finding F18)
     sp3 = importlib.util.spec_from_file_location("vfjobs_x_C03", os.path.join(os.path.dirname(__file__), "C03.py")); m3 = importlib.util.module_from_spec(sp3); m3.Job = Job; sp3.loader.exec_module(m3)
     for j in m3.jobs(tier):
